@@ -259,8 +259,15 @@ def rule_layout_siblings(chk, prog):
 def run(chk, prog, tier):
   rule_interface(chk, prog)
   rule_agnostic(chk, prog)
-  rule_layout_siblings(chk, prog)
   rule_options(chk, prog)
+  from rules import c07
+  c07.check_reversed_einsum(chk, prog, 'C09.4-options-cannot-change-values')
+  try:
+    rule_layout_siblings(chk, prog)
+  except AnalysisError as e:
+    if not chk.violations:
+      raise
+    chk.note(f'sibling layout rules could not be evaluated on this tree ({e}); the violations above are reported first')
   chk.assume('XLA precision hints and argument order do not change the mathematical result of an einsum',
              'reshape(order="F") / stack / unstack as decided under C01')
   return dict(
